@@ -198,7 +198,24 @@ fn c03c_lzma2_chunk_limits() {
     let add: u32 = kani::any();
     kani::assume(cs <= LZMA2_COMPRESSED_LIMIT && add <= 26);
     assert!(cs + add <= (1 << 16), "C03-C: an LZMA2 chunk can exceed 64 KiB of compressed data");
-    assert!(cs + add - 1 <= 0xFFFF || cs + add == 0);
     kani::cover!(total == (1 << 21), "chunk of exactly 2 MiB");
     kani::cover!(cs + add == (1 << 16), "chunk of exactly 64 KiB");
+}
+
+// C03 / C01: literal sub-coder selection: shared by encoder and decoder, so a wrong formula still round-trips with
+// itself - it must equal the LZMA specification's formula (what every other implementation uses):
+//   index = ((pos & (2^lp - 1)) << lc) + (prev_byte >> (8 - lc)).
+//@ {"name":"c03_literal_subcoder_index_spec","props":["C03","C01"],"obligation":"C03-B","timeout":600,"functions":["LiteralCoder::new","LiteralCoder::get_sub_coder_index"],"bounds":"lc 0..=8, lp 0..=4, prev_byte any u8, pos any u32","assumes":["lc, lp inside the ranges every constructor enforces"]}
+#[kani::proof]
+fn c03_literal_subcoder_index_spec() {
+    let (lc, lp): (u32, u32) = (kani::any(), kani::any());
+    kani::assume(lc <= 8 && lp <= 4);
+    let prev: u8 = kani::any();
+    let pos: u32 = kani::any();
+    let c = LiteralCoder::new(lc, lp);
+    let got = c.get_sub_coder_index(prev as u32, pos);
+    let want = ((pos & ((1u32 << lp) - 1)) << lc) + ((prev as u32) >> (8 - lc));
+    assert!(got == want, "C03: literal sub-coder index differs from the LZMA specification");
+    assert!(got < (1 << (lc + lp)), "C01: literal sub-coder index outside the table");
+    kani::cover!(lc == 2 && lp == 2 && got != 0, "non-default lc/lp");
 }
